@@ -134,7 +134,7 @@ Proof.
     { destruct ip as [p|sb|e p]; simpl in Eip; injection Eip as <- <-; simpl in Ok1.
       - split; [|exact Logic.I]. destruct Ok1 as [Kp|[_ Ct]]; [eapply stable_known; eassumption|].
         rewrite (Ct eq_refl) in NoT. discriminate.
-      - split; [eapply stable_known; eassumption | exact Logic.I].
+      - destruct Ok1.
       - destruct Ok1 as [A B]. split; eapply stable_known; eassumption. }
     destruct N1 as [N1 N2].
     assert (Kf : known s1 f) by (eapply known_handles_in; [apply inv_known; exact I1 | apply in_handles_form; exact Ef]).
